@@ -38,7 +38,9 @@ func init() {
 			}})
 	}
 	sh("C01", 90, 1200, runner.Part{Scenario: "simhost", Params: p("pdup", "0"), Share: 3},
-		runner.Part{Scenario: "simhost", Params: p("pdup", "0", "readmix", "60", "ppartition", "8", "ptransfer", "8"), Share: 2})
+		runner.Part{Scenario: "simhost", Params: p("pdup", "0", "readmix", "60", "ppartition", "8", "ptransfer", "8"), Share: 2},
+		// leadership going back and forth (transfers, splits) under message loss and delay, many reads
+		runner.Part{Scenario: "simhost", Params: p("pdup", "0", "readmix", "70", "ptransfer", "15", "pdrop", "10", "preorder", "40", "ppartition", "10", "pheal", "10", "clients", "4", "keys", "1"), Share: 2})
 	sh("C02", 90, 1200, runner.Part{Scenario: "simhost", Share: 3},
 		runner.Part{Scenario: "simhost", Params: p("pmember", "10", "hosts", "4"), Share: 1},
 		// few voters with non-voting members / witnesses, crashes between send and save
@@ -89,7 +91,10 @@ func init() {
 		// on-disk state machines that install streamed snapshots (lagging followers) and crash while doing so
 		runner.Part{Scenario: "simhost", Params: p("sm", "3", "hosts", "3", "snapshot", "5", "overhead", "0", "ppartition", "12", "pheal", "10", "pcrash", "12", "prestart", "60", "fsyield", "400", "ops", "40", "readmix", "10"), Share: 2})
 	sh("C17", 90, 1200, runner.Part{Scenario: "simhost", Share: 2},
-		runner.Part{Scenario: "simhost", Params: p("pmember", "10", "ptransfer", "8", "ppartition", "8"), Share: 1})
+		runner.Part{Scenario: "simhost", Params: p("pmember", "10", "ptransfer", "8", "ppartition", "8"), Share: 1},
+		// few full members plus witnesses / non-voting members, crashes in the middle of saves
+		runner.Part{Scenario: "simhost", Params: p("hosts", "3", "voters", "1", "memberbias", "2", "pmember", "40", "pcrash", "15", "prestart", "80", "fsyield", "400", "readmix", "20"), Share: 1},
+		runner.Part{Scenario: "simhost", Params: p("hosts", "4", "voters", "2", "memberbias", "1", "pmember", "25", "pcrash", "8", "ppartition", "8", "quiesce", "1"), Share: 1})
 	sh("C18", 90, 1200, runner.Part{Scenario: "simhost", Params: p("pmember", "20", "hosts", "5"), Share: 1},
 		runner.Part{Scenario: "simhost", Params: p("pmember", "20", "hosts", "4", "pcrash", "5"), Share: 1},
 		// quorum sets: reads and elections while non-voting members / witnesses answer and voters are cut off
